@@ -114,7 +114,7 @@ struct UItem
 	int64_t size = 1, mparam = 0, delay = 0;
 };
 
-struct ExpDgram { std::string payload; int sess = 0; int tsel = 0; bool delivered = false; };
+struct ExpDgram { std::string payload; int sess = 0; int tsel = 0; bool delivered = false; bool noise = false; };
 
 // one TCP connection at a session's target. A target listener serves every
 // connection that reaches it: a mutated client may legitimately dial another
@@ -205,6 +205,7 @@ struct Socks
 	std::unique_ptr<sim::simulation> sim;
 	std::unique_ptr<asio::io_context> nP, nC[2], nT[2];
 	ip::address aP, aC[2], aT[2];
+	std::unique_ptr<udp::socket> noise_sock; // a third party on target node 0, port 5900
 	std::unique_ptr<sim::socks_server> srv[2]; // [0] v5, [1] v4
 	std::vector<std::unique_ptr<Sess>> ss;
 	std::vector<Sess*> udp_sessions;
@@ -965,6 +966,21 @@ struct Socks
 		d.insert(d.end(), payload.begin(), payload.end());
 		udp::socket* from = s.cu.get();
 		bool valid = true;
+		if (seq == 0 && it.mut == 0 && ((s.idx + it.tsel + int(it.size)) % 4) == 0 && noise_sock)
+		{
+			// a third party reaches the relay port before the client's first datagram. Whatever the relay does with it
+			// (dropping it, or handing it to the client as a reply from that party), the client's own datagrams are
+			// still the client's and must be forwarded
+			std::string const np = udp_payload(0x77, s.idx, 9999, 24);
+			error_code nec;
+			noise_sock->send_to(asio::buffer(np), s.relay, 0, nec);
+			if (!nec)
+			{
+				ExpDgram e; e.payload = np; e.sess = s.idx; e.tsel = -1; e.noise = true;
+				s.exp_replies.push_back(e);
+				ctx.hit("udp_third_party_before_first_datagram");
+			}
+		}
 		if (it.mut != 0)
 		{
 			valid = false;
@@ -1086,11 +1102,11 @@ struct Socks
 					// tiny data parts are not unique: among the replies with this data part take the
 					// one whose sender the header names, if there is one
 					auto names = [&](ExpDgram const& e) {
-						ip::address const src = aT[ut[e.tsel].node];
+						ip::address const src = e.noise ? aT[0] : aT[ut[e.tsel].node];
 						bool named = false;
 						if (h.atyp == 1) named = ip::address(ip::address_v4(h.addr)) == src;
 						else if (h.atyp == 3) for (auto const& a : net.world(h.name)) if (a == src) named = true;
-						return named && h.port == utarget_port(e.tsel);
+						return named && h.port == (e.noise ? 5900 : utarget_port(e.tsel));
 					};
 					ExpDgram* hit = nullptr;
 					bool found = false;
@@ -1108,7 +1124,7 @@ struct Socks
 						ctx.hit(h.atyp == 3 ? "udp_reply_wrapped_name" : "udp_reply_wrapped_ipv4");
 						if (!names(*hit))
 							fail("socks.udp.reply.source", who(s) + ": the header of a relayed reply does not name its source "
-								+ aT[ut[hit->tsel].node].to_string() + ":" + std::to_string(utarget_port(hit->tsel)) + " (address type "
+								+ (hit->noise ? aT[0].to_string() : aT[ut[hit->tsel].node].to_string()) + ":" + std::to_string(hit->noise ? 5900 : utarget_port(hit->tsel)) + " (address type "
 								+ std::to_string(h.atyp) + ", port " + std::to_string(h.port) + ")");
 					}
 					if (!found)
@@ -1197,7 +1213,7 @@ struct Socks
 								break;
 							}
 					for (auto const& e : s.exp_replies)
-						if (!e.delivered)
+						if (!e.delivered && !e.noise) // what the relay does with a third party's datagram is its own business
 						{
 							fail("socks.udp.reply.missing", who(s) + ": a reply of " + std::to_string(e.payload.size()) + " bytes from UDP target "
 								+ std::to_string(e.tsel) + " to the relay never reached the client" + cap);
@@ -1215,8 +1231,9 @@ struct Socks
 		cls = int(plan.c("cls", 0)) != 0 ? 1 : 0;
 		flags = uint32_t(plan.c("flags", 0)) & 3u;
 		aP = ip::make_address_v4("10.0.0.1");
-		aC[0] = ip::make_address_v4("10.0.1.1"); aC[1] = ip::make_address_v4("10.0.1.2");
-		aT[0] = ip::make_address_v4("10.0.2.1"); aT[1] = ip::make_address_v4("10.0.2.2");
+		// octets above 127 in every position somewhere: address bytes travel through char buffers
+		aC[0] = ip::make_address_v4("10.0.1.1"); aC[1] = ip::make_address_v4("10.200.1.130");
+		aT[0] = ip::make_address_v4("10.0.2.1"); aT[1] = ip::make_address_v4("172.16.200.135");
 		net.ctx = &ctx;
 		net.t[0] = aT[0]; net.t[1] = aT[1];
 		net.lookup_lat = std::max<int64_t>(0, plan.c("lookup_lat", 0));
@@ -1240,6 +1257,13 @@ struct Socks
 		sim.reset(new sim::simulation(net));
 		nP.reset(new asio::io_context(*sim, aP));
 		for (int i = 0; i < 2; ++i) { nC[i].reset(new asio::io_context(*sim, aC[i])); nT[i].reset(new asio::io_context(*sim, aT[i])); }
+		{
+			error_code nec;
+			noise_sock.reset(new udp::socket(*nT[0]));
+			noise_sock->open(udp::v4(), nec);
+			noise_sock->bind(udp::endpoint(aT[0], 5900), nec);
+			noise_sock->non_blocking(true);
+		}
 		srv[0].reset(new sim::socks_server(*nP, 1080, 5, flags));
 		srv[1].reset(new sim::socks_server(*nP, 1081, 4, 0));
 
@@ -1368,6 +1392,7 @@ struct Socks
 		{
 			Sess& s = *sp;
 			s.ut.reset(); s.cu.reset(); s.cu2.reset();
+			noise_sock.reset();
 			s.ta.reset(); s.tcs.clear();
 			s.cs.reset(); s.ct.reset(); s.ct2.reset();
 		}
